@@ -102,7 +102,7 @@ func cmdFunc(args []string) int {
 			continue
 		}
 		gen := time.Since(t1).Seconds()
-		solveAll(res.Obls, *keep, *timeout, envInt("VERIF_SEED", 0), false, 5)
+		solveAll(res.Obls, *keep, *timeout, envInt("VERIF_SEED", 0), false, 8)
 		ok, fail := 0, 0
 		for _, o := range res.Obls {
 			good := o.Result == o.Expect || (o.Expect == "sat" && o.Result != "unsat")
@@ -238,7 +238,7 @@ func cmdCheck(args []string) int {
 	for _, f := range run.funcs {
 		all = append(all, f.Obls...)
 	}
-	solveAll(all, smtDir, timeout, seed, needTwo, 5)
+	solveAll(all, smtDir, timeout, seed, needTwo, 8)
 	return run.report(time.Since(t0).Seconds())
 }
 
